@@ -1,6 +1,8 @@
 """C08 - cell identities and cross-references stay valid as the population changes."""
+import os
 import runner as R
 from runner import Inv, Merged
+from checks.C15 import tsan_reports
 
 ID = "C08"
 MANIFEST = (
@@ -27,12 +29,23 @@ def run(tier, seed, t0):
     R.run_inv(Inv("population", n // 4, "asanassert", "c1d0", args=it, threads=2, first=4 * n, timeout=T(tier, 1800, 4 * 3600)), seed, wd, m)
     # epithelial types with 1-2 face types: the statement quantifies over any admissible number of face types
     R.run_inv(Inv("population", n // 4, "plain", "c1d0", args=it + ["--few_face_types=1"], threads=1, first=5 * n, timeout=T(tier, 1200, 4 * 3600), tag="population/plain/c1d0/few_face_types"), seed, wd, m)
+    # ThreadSanitizer on the 4-thread histories: a race inside the code that hands out ids and updates the population list (cell_divider::run, the removal of cells) is this
+    # property's business whatever the timing; races of the contact / force phases are not (C07, C15)
+    tenv = {"TSAN_OPTIONS": "halt_on_error=0:exitcode=0:log_path=%s:history_size=4:external_symbolizer_path=%s" % (os.path.join(wd, "tsan"), R.SYMBOLIZER)}
+    mt = Merged(); R.run_inv(Inv("population", T(tier, 6, 60), "tsan", "c1d0", args=it, threads=4, shards=3, first=6 * n, timeout=T(tier, 1800, 4 * 3600), env=tenv, tag="population/tsan/c1d0/t4"), seed, wd, mt)
+    m.add_bins({"tsan_histories": mt.evaluations, "tsan_divisions": mt.bins.get("divisions", 0)}); m.inconclusive += mt.inconclusive; m.harness_failures += mt.harness_failures
+    m.violations += [v for v in mt.violations if not v.get("crash")]
+    reps, total_reports, norepo = tsan_reports(wd, R.builder.repo_dir())
+    for key, (cnt, sample) in sorted(reps.items()):
+        if "cell_divider::run" in key or "solver::remove" in key or "solver::update_cell" in key or "cell_id" in key:
+            m.violations.append({"key": "population." + key, "msg": "%d reports, first:\n%s" % (cnt, sample), "obs": {"reports": cnt}, "inv": "tsan",
+                                 "replay": {"custom": True, "flavour": "tsan", "argv": ["python3", "check.py", "C08", "--tier", tier, "--seed", str(seed)], "note": "race reports vary from run to run: re-run the check"}})
     # an abort at a use site under asanassert is this property's business when it is an index error
     for v in m.violations:
         if v.get("crash") and ("container-overflow" in v["key"] or "glibcxx-assert" in v["key"] or "heap-buffer-overflow" in v["key"]) and "asanassert" in v["inv"]:
             v["crash"] = False
     floors = {
-        "histories_with_division_or_removal": (m.nontrivial, 0.5 * m.evaluations), "divisions": (m.bins.get("divisions", 0), 30), "removals": (m.bins.get("removals", 0), 30),
+        "histories_with_division_or_removal": (m.nontrivial, 0.5 * m.evaluations), "divisions": (m.bins.get("divisions", 0), 30), "divisions_under_thread_sanitizer": (m.bins.get("tsan_divisions", 0), 3), "removals": (m.bins.get("removals", 0), 30),
         "populations_shrunk_to_exactly_one_cell": (m.bins.get("shrunk_to_one_cell", 0), 5),
         "removal_first": (m.bins.get("removal_first", 0), 5), "removal_middle": (m.bins.get("removal_middle", 0), 5), "removal_last": (m.bins.get("removal_last", 0), 5),
         "couplings_checked": (m.bins.get("couplings_checked", 0), 100000), "phase_checks": (m.bins.get("phase_checks", 0), 5000), "iterations_with_couplings": (m.bins.get("iterations_with_couplings", 0), 500),
